@@ -23,6 +23,7 @@ fn main() {
         "parent" => drivers::parent::run(&a),
         "trees" => drivers::trees::run(&a),
         "prunedecide" => drivers::prunedecide::run(&a),
+        "bigpack" => drivers::bigpack::run(&a),
         "restore" => drivers::restore::run(&a),
         "roundtrip" => drivers::roundtrip::run(&a),
         "sched" => drivers::sched::run(&a),
